@@ -15,6 +15,7 @@ class Unit:
     imports = []
     monad = ""
     get, modify, panic, assert_, usub, lift_opt = "RM.get", "RM.modify", "RM.panic", "RM.assert", "RM.usub", "RM.liftOpt"
+    uadd = "RM.uadd"            # checked usize addition (units with `checked_add`)
     state_vars = {"self"}
     state_subobjects = set()
     state_types = ()
